@@ -5,6 +5,7 @@ import (
 	"encoding/json"
 	"fmt"
 	"net/http/httptest"
+	"net/url"
 	"strings"
 	"time"
 
@@ -120,6 +121,105 @@ func (e *DashEnv) Run(igDoc string, srcs []shconfig.Source) (coq string, o DashO
 	o.Accepted = o.Stored
 	if !o.Stored {
 		o.Err = o.Body
+		return
+	}
+	loaded, err := shconfig.Integrations(ctx, e.Pool)
+	if err != nil {
+		o.Err = "config.Integrations: " + err.Error()
+		return
+	}
+	o.Panic = catch(func() { driveTasks(&o.Obs, srcs, loaded) })
+	return
+}
+
+// SrcObs: what the real web.Handler.SaveSource did.
+type SrcObs struct {
+	Obs
+	Status   int
+	Stored   bool     // the insert into shovel.sources was executed
+	Quiet    bool     // no statement at all reached the database during the call
+	AppNames []string // `set application_name ...`
+	Store    []string // statements on shovel.sources / shovel.integrations
+	AllSQL   []string
+	Hung     bool
+}
+
+// RunSource: POST /save-source with the given name (valid chain id and URL)
+// while an integration that refers to a source of that name is already stored
+// (planted directly in shovel.integrations, with a cursor at its stop so that
+// its task ends at once).  SaveSource validates, stores, restarts the
+// manager: loadTasks reads the stored source and integration and NewTask
+// builds the task.  Afterwards the sources and integrations are loaded the
+// way the process does (config.Root.AllSources, config.Integrations) and the
+// task's statements are driven through the Go-level Conn.
+func (e *DashEnv) RunSource(name string, igDoc string) (coq string, o SrcObs) {
+	ctx := wctx.WithVersion(context.Background(), Version)
+	var ig shconfig.Integration
+	if err := json.NewDecoder(strings.NewReader(igDoc)).Decode(&ig); err != nil {
+		o.Err = "decode: " + err.Error()
+		return
+	}
+	o.Decoded = true
+	coq = CInteg(ig)
+	for _, q := range []string{"delete from shovel.integrations", "delete from shovel.task_updates", "delete from shovel.sources"} {
+		if _, err := e.S.Exec(q); err != nil {
+			o.Err = "reset: " + err.Error()
+			return
+		}
+	}
+	if _, err := e.S.Exec(`insert into shovel.integrations(name, conf) values ($1, $2)`, ig.Name, igDoc); err != nil {
+		o.Err = "planting integration: " + err.Error()
+		return
+	}
+	for _, ref := range ig.Sources {
+		stop := ref.Stop
+		if stop == 0 {
+			stop = 1 << 40
+		}
+		if _, err := e.S.Exec(`insert into shovel.task_updates(chain_id, src_name, ig_name, num, hash) values ($1, $2, $3, $4, $5)`,
+			int64(1), ref.Name, ig.Name, stop, []byte{1}); err != nil {
+			o.Err = "planting cursor: " + err.Error()
+			return
+		}
+	}
+	conf := shconfig.Root{}
+	mgr := shovel.NewManager(ctx, e.Pool, conf)
+	h := web.New(mgr, &conf, e.Pool)
+	n0 := e.S.LogLen()
+	form := url.Values{"chainID": {"1"}, "name": {name}, "ethURL": {"http://127.0.0.1:1"}}
+	rec := httptest.NewRecorder()
+	req := httptest.NewRequest("POST", "/save-source", strings.NewReader(form.Encode()))
+	req.Header.Set("Content-Type", "application/x-www-form-urlencoded")
+	o.Panic = catch(func() { h.SaveSource(rec, req) })
+	done := make(chan struct{})
+	go func() { mgr.VerifCfgWait(); close(done) }()
+	select {
+	case <-done:
+	case <-time.After(10 * time.Second):
+		o.Hung = true
+	}
+	o.Status = rec.Code
+	log := e.S.Log()[n0:]
+	o.Quiet = len(log) == 0
+	for _, en := range log {
+		o.AllSQL = append(o.AllSQL, en.SQL)
+		if en.Kind == "insert" && en.Table == "shovel.sources" && strings.HasPrefix(en.Outcome, "ok") {
+			o.Stored = true
+		}
+		switch {
+		case strings.HasPrefix(en.SQL, "set application_name"):
+			o.AppNames = append(o.AppNames, en.SQL)
+		case en.Table == "shovel.sources" || en.Table == "shovel.integrations":
+			o.Store = append(o.Store, strings.TrimSpace(strings.TrimSuffix(strings.Join(strings.Fields(en.SQL), " "), ";")))
+		}
+	}
+	o.Accepted = o.Stored
+	if !o.Stored {
+		return
+	}
+	srcs, err := conf.AllSources(ctx, e.Pool)
+	if err != nil {
+		o.Err = "config.AllSources: " + err.Error()
 		return
 	}
 	loaded, err := shconfig.Integrations(ctx, e.Pool)
